@@ -1281,3 +1281,165 @@ Proof.
   intros parse st c W. unfold step_savefail. pose proof (step_wf parse st c W) as H.
   destruct (step parse st c) as [[| | |] st']; exact H.
 Qed.
+
+(* ---------------------------------------------------------------- a tagging job in flight *)
+(* the stored features of every tag are what the parser says about its definition text *)
+Definition feat_of (parse : string -> parse_result) (t : tag) : Prop :=
+  exists p, parse (t_def t) = POk p /\ t_main t = p_main p /\ t_sub t = p_sub p /\ t_data t = p_data p.
+Definition feat_ok (parse : string -> parse_result) (ts : tags_t) : Prop :=
+  forall k t, get ts k = Some t -> feat_of parse t.
+
+Lemma feat_ok_upto_unc : forall parse ts ts', upto_unc ts ts' -> feat_ok parse ts -> feat_ok parse ts'.
+Proof.
+  intros parse ts ts' H Hc k t' G. specialize (H k). rewrite G in H. cbn [option_map] in H.
+  destruct (get ts k) as [t|] eqn:G0; cbn [option_map] in H; [|discriminate].
+  assert (He : erase t = erase t') by congruence.
+  destruct (Hc k t G0) as [p [P1 [P2 [P3 P4]]]]. exists p.
+  pose proof (f_equal t_def He) as E1. pose proof (f_equal t_main He) as E2.
+  pose proof (f_equal t_sub He) as E3. pose proof (f_equal t_data He) as E4. simpl in *.
+  rewrite <- E1, <- E2, <- E3, <- E4. auto.
+Qed.
+
+Lemma feat_ok_after_inherit : forall parse st ts k r st',
+  feat_ok parse (tags st) -> feat_ok parse ts -> (forall ts', feat_ok parse ts' -> feat_ok parse (k ts')) ->
+  after_inherit st ts k = (r, st') -> feat_ok parse (tags st').
+Proof.
+  intros parse st ts k r st' H0 H1 Hk H. unfold after_inherit in H.
+  destruct (inherit_uncertainty (all_streams st) ts) as [[ts' res']|] eqn:E.
+  - injection H as _ <-. simpl. apply Hk. eapply feat_ok_upto_unc; [|exact H1].
+    unfold inherit_uncertainty in E. eapply inherit_loop_upto_unc; eauto.
+  - injection H as _ <-. auto.
+Qed.
+
+Lemma feat_ok_map_refby : forall parse (f : name -> list name -> list name) (p : name -> bool) ts,
+  feat_ok parse ts -> feat_ok parse (map_tags (fun k t => if p k then with_refby t (f k (t_refby t)) else t) ts).
+Proof.
+  intros parse f p ts H k t G. rewrite get_map_tags in G. destruct (get ts k) as [t0|] eqn:G0; simpl in G; [|discriminate].
+  injection G as <-. destruct (p k); apply (H k t0 G0).
+Qed.
+Lemma feat_ok_set : forall parse ts n t, feat_ok parse ts -> feat_of parse t -> feat_ok parse (set ts n t).
+Proof.
+  intros parse ts n t H Ht k t' G. rewrite get_set in G. seq_cases n k.
+  - injection G as <-. auto.
+  - eapply H; eauto.
+Qed.
+Lemma feat_ok_del : forall parse ts n, feat_ok parse ts -> feat_ok parse (del ts n).
+Proof.
+  intros parse ts n H k t G. rewrite get_del in G. seq_cases n k; [discriminate|]. eapply H; eauto.
+Qed.
+
+Opaque dfs dfs_fuel.
+Theorem step_feat_ok : forall parse st c, feat_ok parse (tags st) -> feat_ok parse (tags (snd (step parse st c))).
+Proof.
+  intros parse st c H. destruct c as [nm color qs|nm|nm op]; simpl.
+  - unfold add_tag. destruct (parse_tag_name nm) as [[typ sub] is_mark].
+    destruct (String.eqb typ ""); simpl; auto. destruct (String.eqb sub ""); simpl; auto.
+    destruct (parse qs) as [|p] eqn:Ep; simpl; auto.
+    repeat match goal with |- context [if ?c then _ else _] => destruct c; simpl; auto end.
+    all: apply (feat_ok_map_refby parse (fun _ l => add_name nm l)); apply feat_ok_set; auto; exists p; simpl; auto.
+  - unfold del_tag. destruct (get (tags st) nm) as [tg|]; simpl; auto.
+    repeat match goal with |- context [if ?c then _ else _] => destruct c; simpl; auto end.
+    apply (feat_ok_map_refby parse (fun _ l => rem_name nm l)). apply feat_ok_del. auto.
+  - destruct op; simpl.
+    + unfold update_color. destruct (get (tags st) nm) as [tg|] eqn:G; simpl; auto.
+      destruct (String.eqb c ""); simpl; auto. apply feat_ok_set; auto. apply (H nm tg G).
+    + unfold update_query. destruct (parse qs) as [|p] eqn:Ep; simpl; auto.
+      repeat match goal with |- context [if ?c then (Err _, _) else _] => destruct c; simpl; auto end.
+      destruct (get (tags st) nm) as [tg|] eqn:G; simpl; auto.
+      match goal with |- context [match dfs ?a ?b ?c ?d ?e with _ => _ end] => destruct (dfs a b c d e) end; simpl; auto.
+      match goal with |- context [nonempty (t_convs tg) && complex ?t] => set (nt := t) end.
+      destruct (nonempty (t_convs tg) && complex nt); simpl; auto.
+      destruct (negb (forallb (has (tags st)) (refs tg ++ refs nt))); simpl; auto.
+      match goal with |- feat_ok parse (tags (snd ?x)) => destruct x as [r st'] eqn:Ea end. simpl.
+      refine (feat_ok_after_inherit parse st _ _ r st' H _ _ Ea); [|auto].
+      apply feat_ok_set.
+      * unfold retarget. intros k t Gk. rewrite get_map_tags in Gk.
+        destruct (get (tags st) k) as [t0|] eqn:G0; simpl in Gk; [|discriminate]. injection Gk as <-.
+        destruct (mem_s k (refs tg) && negb (mem_s k (refs nt))); [apply (H k t0 G0)|].
+        destruct (mem_s k (refs nt) && negb (mem_s k (refs tg))); apply (H k t0 G0).
+      * exists p. simpl. auto.
+    + unfold update_name. destruct (get (tags st) nm) as [tg|] eqn:G; simpl; auto.
+      destruct (String.eqb nn ""); simpl; auto.
+      destruct (parse_tag_name nm) as [[otyp osub] om]. destruct (parse_tag_name nn) as [[ntyp nsub] nmk].
+      repeat match goal with |- context [if ?c then _ else _] => destruct c; simpl; auto end.
+      apply (feat_ok_map_refby parse (fun _ l => add_name nn (rem_name nm l))). apply feat_ok_set; [apply feat_ok_del; auto|].
+      apply (H nm tg G).
+    + unfold update_convs. destruct (get (tags st) nm) as [tg|] eqn:G; simpl; auto.
+      repeat match goal with |- context [if ?c then _ else _] => destruct c; simpl; auto end.
+      apply feat_ok_set; auto. apply (H nm tg G).
+    + unfold update_marks. destruct (negb (nonempty l)); simpl.
+      { destruct (get (tags st) nm); simpl; auto. }
+      destruct (negb (String.prefix "mark/" nm || String.prefix "generated/" nm)); simpl; auto.
+      destruct (get (tags st) nm) as [tg|] eqn:G; simpl; auto.
+      match goal with |- context [if ?c then (Err _, _) else _] => destruct c; simpl; auto end.
+      match goal with |- feat_ok parse (tags (snd ?x)) => destruct x as [r st'] eqn:Ea end. simpl.
+      refine (feat_ok_after_inherit parse st _ _ r st' H _ _ Ea).
+      * apply feat_ok_set; auto. apply (H nm tg G).
+      * intros ts' H'. destruct (get ts' nm) as [t|] eqn:G'; auto. apply feat_ok_set; auto. apply (H' nm t G').
+    + unfold update_marks. destruct (negb (nonempty l)); simpl.
+      { destruct (get (tags st) nm); simpl; auto. }
+      destruct (negb (String.prefix "mark/" nm || String.prefix "generated/" nm)); simpl; auto.
+      destruct (get (tags st) nm) as [tg|] eqn:G; simpl; auto.
+      match goal with |- context [if ?c then (Err _, _) else _] => destruct c; simpl; auto end.
+      match goal with |- feat_ok parse (tags (snd ?x)) => destruct x as [r st'] eqn:Ea end. simpl.
+      refine (feat_ok_after_inherit parse st _ _ r st' H _ _ Ea).
+      * apply feat_ok_set; auto. apply (H nm tg G).
+      * intros ts' H'. destruct (get ts' nm) as [t|] eqn:G'; auto. apply feat_ok_set; auto. apply (H' nm t G').
+Qed.
+Transparent dfs dfs_fuel.
+
+(* the completion of a job keeps graph and features, whatever happened to the table meanwhile *)
+Lemma complete_job_wf : forall parse st nm snap,
+  wf_tags (tags st) -> feat_ok parse (tags st) -> feat_of parse snap ->
+  wf_tags (tags (complete_job st nm snap)) /\ feat_ok parse (tags (complete_job st nm snap)).
+Proof.
+  intros parse st nm snap W F Fs. unfold complete_job.
+  destruct (get (tags st) nm) as [ot|] eqn:G; [|auto].
+  destruct (String.eqb (t_def ot) (t_def snap)) eqn:E; [|auto]. apply seqb_eq in E.
+  destruct (F nm ot G) as [p [P1 [P2 [P3 P4]]]]. destruct Fs as [q [Q1 [Q2 [Q3 Q4]]]].
+  assert (q = p) by (rewrite E in P1; congruence). subst q. simpl. split.
+  - eapply wf_set_same_graph; eauto. unfold gview, refs. simpl. rewrite Q2, Q3, P2, P3. reflexivity.
+  - apply feat_ok_set; auto. exists p. simpl. auto.
+Qed.
+
+Definition jinv (parse : string -> parse_result) (s : jstate) : Prop :=
+  wf_tags (tags (js s)) /\ feat_ok parse (tags (js s)) /\
+  match job s with Some (_, snap) => feat_of parse snap | None => True end.
+
+Theorem jstep_inv : forall parse s e, jinv parse s -> jinv parse (jstep parse s e).
+Proof.
+  intros parse s e [W [F J]]. destruct e as [c|nm|]; simpl.
+  - split; [apply step_wf; auto|]. split; [apply step_feat_ok; auto|auto].
+  - destruct (job s) as [[n0 t0]|] eqn:Ej; [unfold jinv; rewrite Ej; auto|].
+    destruct (get (tags (js s)) nm) as [t|] eqn:G; [|unfold jinv; rewrite Ej; auto].
+    unfold jinv. simpl. split; auto. split; auto. apply (F nm t G).
+  - destruct (job s) as [[nm snap]|] eqn:Ej; [|unfold jinv; rewrite Ej; auto].
+    destruct (complete_job_wf parse (js s) nm snap W F J) as [W' F']. unfold jinv. simpl. auto.
+Qed.
+
+(* EVERY interleaving of API calls with the start and the completion of tagging jobs *)
+Theorem jrun_wf : forall parse cv next es, wf_tags (tags (js (jrun parse cv next es))).
+Proof.
+  intros parse cv next es. assert (jinv parse (jrun parse cv next es)) as [H _]; auto.
+  unfold jrun. rewrite <- fold_left_rev_right.
+  induction (rev es) as [|e r IH]; simpl.
+  - split; [apply wf_empty|]. split; [intros k t G; discriminate|exact I].
+  - apply jstep_inv. auto.
+Qed.
+
+(* the seeded completion that keeps the job's own referencedBy: the interleaving of seeded/C11-r4c-n1 *)
+Definition seeded_history : list jev :=
+  [JCall (CAdd "tag/a" "red" "sport:80"); JStart "tag/a";
+   JCall (CDel "tag/a"); JCall (CAdd "tag/a" "red" "sport:80"); JCall (CAdd "tag/b" "red" "tag:a"); JDone].
+
+Lemma seeded_completion_loses_referrer :
+  let s := fold_left (jstep_seeded demo_parse) seeded_history (mkJ (init_state [] 4%N) None) in
+  option_map t_refby (get (tags (js s)) "tag/a") = Some [] /\
+  fst (step demo_parse (js s) (CDel "tag/a")) = Ok.
+Proof. vm_compute. split; reflexivity. Qed.
+
+Lemma faithful_completion_keeps_referrer :
+  let s := fold_left (jstep demo_parse) seeded_history (mkJ (init_state [] 4%N) None) in
+  option_map t_refby (get (tags (js s)) "tag/a") = Some ["tag/b"] /\
+  fst (step demo_parse (js s) (CDel "tag/a")) = Err EReferenced.
+Proof. vm_compute. split; reflexivity. Qed.
